@@ -10,7 +10,8 @@ CFG = dict(
                "sync.Once: body runs once and every caller reads its value); concurrent create-exclusive temp files get distinct, "
                "fresh names and overwrite nothing (and without O_EXCL they can collide). The lock discipline itself is "
                "re-established on every run by vm_compute on the event lists lockscan extracts from /repo's current source "
-               "(profile, internal/driver, internal/binutils).",
+               "(profile, internal/driver, internal/binutils), together with the obligation that every read-modify-write of "
+               "a guarded variable (configure, temp-file registry, copy-on-write tool configuration) lies in ONE acquire..release region.",
     level_note="partial by nature: the theorems are about the lock discipline extracted syntactically from the source "
                "(objects are abstracted to one instance per guarded field; control flow is flattened under a fail-closed "
                "region rule); Go's memory model, sync.Mutex/Once/WaitGroup, the file system's O_EXCL and rename, and the "
@@ -22,7 +23,8 @@ CFG = dict(
     extra=["c20hooks.race_stress"],
     shard=120,
     rule="cases = concurrent runs of: k newTempFile calls on a directory with random pre-existing names; 2-3 threads of "
-         "get/set/configure on the option store (all interleavings enumerated in Coq); Write/WriteUncompressed/Copy on one "
+         "get/set/configure on the option store (all interleavings enumerated in Coq); k goroutines configuring DISTINCT options and "
+         "reading their own option back (lost-update detector); Write/WriteUncompressed/Copy on one "
          "random profile; k addrInfo calls through ONE scripted addr2line / llvm-symbolizer pipe; concurrent ObjAddr on one "
          "ELF ObjFile; concurrent save/delete of named configs in one settings file; parallel fetch of up to 300 sources; "
          "mixed web UI requests; distinct = sha256 of the input term; non-trivial = at least two goroutines (and a non-empty profile)",
